@@ -9,7 +9,6 @@ package secp256k1
 import (
 	fiat "gitlab.com/yawning/secp256k1-voi/internal/fiat/secp256k1montgomeryscalar"
 	"gitlab.com/yawning/secp256k1-voi/internal/field"
-	"gitlab.com/yawning/secp256k1-voi/internal/swu"
 )
 
 // VerifFieldElement re-exports the internal field element type (and
@@ -36,16 +35,6 @@ func VerifNewFieldElementFromCanonicalBytes(src *[32]byte) (*VerifFieldElement, 
 
 // VerifFieldBytesAreCanonical exposes field.BytesAreCanonical.
 func VerifFieldBytesAreCanonical(src *[32]byte) bool { return field.BytesAreCanonical(src) }
-
-// VerifFieldReduceSaturated exposes field.reduceSaturated.
-func VerifFieldReduceSaturated(dst, src *[4]uint64) uint64 {
-	return field.VerifReduceSaturated(dst, src)
-}
-
-// VerifFiatField exposes the raw fiat entry points of the base field.
-func VerifFiatField(op string, out, a, b *[4]uint64, c uint64) bool {
-	return field.VerifFiat(op, out, a, b, c)
-}
 
 // VerifRaw returns the raw projective coordinates (Montgomery limbs)
 // and the validity flag.
@@ -79,48 +68,4 @@ func (s *Scalar) VerifRawLimbs() [4]uint64 { return [4]uint64(s.m) }
 func (s *Scalar) VerifSetRawLimbs(l [4]uint64) *Scalar {
 	s.m = fiat.MontgomeryDomainFieldElement(l)
 	return s
-}
-
-// VerifScalarReduceSaturated exposes the scalar reduceSaturated.
-func VerifScalarReduceSaturated(dst, src *[4]uint64) uint64 {
-	return reduceSaturated(dst, src)
-}
-
-// VerifFiatScalar exposes the raw fiat entry points of the scalar field.
-func VerifFiatScalar(op string, out, a, b *[4]uint64, c uint64) bool {
-	switch op {
-	case "mul":
-		fiat.Mul((*fiat.MontgomeryDomainFieldElement)(out), (*fiat.MontgomeryDomainFieldElement)(a), (*fiat.MontgomeryDomainFieldElement)(b))
-	case "square":
-		fiat.Square((*fiat.MontgomeryDomainFieldElement)(out), (*fiat.MontgomeryDomainFieldElement)(a))
-	case "add":
-		fiat.Add((*fiat.MontgomeryDomainFieldElement)(out), (*fiat.MontgomeryDomainFieldElement)(a), (*fiat.MontgomeryDomainFieldElement)(b))
-	case "sub":
-		fiat.Sub((*fiat.MontgomeryDomainFieldElement)(out), (*fiat.MontgomeryDomainFieldElement)(a), (*fiat.MontgomeryDomainFieldElement)(b))
-	case "opp":
-		fiat.Opp((*fiat.MontgomeryDomainFieldElement)(out), (*fiat.MontgomeryDomainFieldElement)(a))
-	case "tomont":
-		fiat.ToMontgomery((*fiat.MontgomeryDomainFieldElement)(out), (*fiat.NonMontgomeryDomainFieldElement)(a))
-	case "frommont":
-		fiat.FromMontgomery((*fiat.NonMontgomeryDomainFieldElement)(out), (*fiat.MontgomeryDomainFieldElement)(a))
-	case "selectznz":
-		fiat.Selectznz(out, fiat.Uint64ToUint1(c), a, b)
-	case "nonzero":
-		fiat.Nonzero(&out[0], a)
-	case "setone":
-		fiat.SetOne((*fiat.MontgomeryDomainFieldElement)(out))
-	default:
-		return false
-	}
-	return true
-}
-
-// VerifSWUMap exposes swu.MapToCurveSimpleSWU.
-func VerifSWUMap(u *VerifFieldElement) (*VerifFieldElement, *VerifFieldElement) {
-	return swu.MapToCurveSimpleSWU(u)
-}
-
-// VerifSWUIsoMap exposes swu.IsoMap.
-func VerifSWUIsoMap(x, y *VerifFieldElement) (*VerifFieldElement, *VerifFieldElement, uint64) {
-	return swu.IsoMap(x, y)
 }
